@@ -27,6 +27,18 @@ TESTS = {
                                 functions=['tarpc/src/server.rs::BaseChannel, Requests, InFlightRequest::execute; tarpc/src/server/limits/requests_per_channel.rs::MaxRequests (through the public API, hand-written buffering transport)'],
                                 bound='peer scripts of <= 4 messages over {Req 7, Req 8, Cancel 7, Cancel 8} x a channel poll or not after each x handler release order x handlers finishing before the last message or at the end x sink gated|not x limit none|1 x half-close|not (149760 scenarios); oracles on the wire, handler invocation counts, flush state, in_flight_requests()',
                                 why='replay search: source of concrete failing inputs when the deductive check is undecided or fails'),
+    'server_context_bounded': dict(file='server_context_bounded', fn='handler_sees_the_context_that_was_sent',
+                                   functions=['tarpc/src/server.rs::BaseChannel::start_request, InFlightRequest::execute; tarpc/src/trace.rs::Context::new_child (through the public API, in-memory transport, no tracing subscriber)'],
+                                   bound='grid of boundary values: 4 trace ids x 3 span ids x 2 sampling decisions x 8 remaining times (0 s .. 10 y) x channel with/without the request-limit layer (384 requests); oracle = the handler observes the received deadline exactly, the transmitted trace id and sampling decision, and a span id of its own',
+                                   why='replay search: source of concrete failing inputs when the deductive check of unit server/trace_ctx is undecided (e.g. a new helper function without a contract) or fails'),
+    'deadlines_bounded': dict(file='deadlines_bounded', fn='deadlines_enforced_and_never_early',
+                              functions=['tarpc/src/client.rs + client/in_flight_requests.rs (deadline timers, through the public API)', 'tarpc/src/server.rs + server/in_flight_requests.rs (deadline timers, through the public API)'],
+                              bound='paused tokio clock; deadlines {50 ms, 1 s, 10 s, 1 h} x peer reply at {never, 0.5 D, 1.1 D} (client) and handler finishing at {never, 0.5 D, 2 D} x channel with/without the request-limit layer (server), next to a second request with deadline 10 D (36 scenarios); probes at 0.8 D (nothing timed out early) and 1.2 D + 5 ms (timed out by then)',
+                              why='replay search: source of concrete failing inputs when the deductive checks of the deadline clauses are undecided or fail'),
+    'channels_bounded': dict(file='channels_bounded', fn='channels_per_key_scripts',
+                             functions=['tarpc/src/server/limits/channels_per_key.rs::MaxChannelsPerKey, TrackedChannel, Tracker (through the public API: Incoming::max_channels_per_key over an mpsc listener of BaseChannels)'],
+                             bound='every script of <= 9 events over {arrive key 0, arrive key 1, drop the k-th oldest live yielded channel (k<3), poll once} x n in {1,2} (118516 scripts); oracle = the property (admitted iff fewer than n yielded channels with the key are alive when the filter reaches the arrival)',
+                             why='replay search: source of concrete failing inputs when the deductive check of unit channels is undecided (code rewritten into combinator style Verus rejects) or fails'),
     'complete_all_bounded': dict(inrepo=True, file='client_table', fn='verif_native_complete_all_requests_bounded',
                                  functions=['tarpc/src/client/in_flight_requests.rs::complete_all_requests (+ its consuming loop)'],
                                  bound='every table of <= 3 entries over ids {0,1,2,u64::MAX} (15 tables)',
@@ -44,6 +56,26 @@ TESTS = {
 
 class NativeUndecided(Exception):
     pass
+
+
+def attribute(txt, test_file):
+    """Which properties a failing stand-in speaks about: the oracle messages are prefixed with the
+    ids of the properties they state (`C04/C08: ...`); a panic raised outside the test file is the
+    endpoint itself panicking (C16).  An empty answer means `not attributable` (the failure then
+    counts for every property the test is registered for)."""
+    props = set()
+    m = re.search(r"panicked at ([^\n]*?):\d+:\d+:\n([^\n]*)", txt)
+    if m:
+        where, msg = m.group(1), m.group(2)
+        if ('tests/%s.rs' % test_file) not in where and ('native_inrepo' not in where):
+            props.add('C16')
+        else:
+            pm = re.match(r'\s*((?:C\d\d)(?:/C\d\d)*)\b', msg)
+            if pm:
+                props.update(pm.group(1).split('/'))
+    for fm in re.finditer(r'^VERIF-FAIL\s+((?:C\d\d)(?:/C\d\d)*)\b', txt, re.M):
+        props.update(fm.group(1).split('/'))
+    return sorted(props)
 
 
 def run_tests(ids, timeout=1500):
@@ -88,7 +120,8 @@ def run_tests(ids, timeout=1500):
             failed = bool(re.search(r'test result: FAILED', txt))
             if not passed and not failed:
                 raise NativeUndecided('native stand-in %s did not build or run: %s' % (tid, txt[-600:].replace('\n', ' | ')))
-            rec = dict(id=tid, cmd='(cd %s && %s%s)' % (cwd, 'RUSTFLAGS="--cfg tarpc_verif" ' if t.get('inrepo') else '', ' '.join(cmd)), passed=passed, evaluations=int(m.group(1)) if m else 0,
+            attributed = attribute(txt, t['file']) if failed else []
+            rec = dict(id=tid, attributed=attributed, cmd='(cd %s && %s%s)' % (cwd, 'RUSTFLAGS="--cfg tarpc_verif" ' if t.get('inrepo') else '', ' '.join(cmd)), passed=passed, evaluations=int(m.group(1)) if m else 0,
                        functions=t['functions'], bound=t['bound'], why=t['why'], wall_s=time.time() - t0, output_tail=txt[-2500:])
             json.dump(rec, open(cpath, 'w'))
             out.append(rec)
